@@ -2,7 +2,7 @@
    line written by the Go harness) to the canonical text of the model's
    observable.  Used identically by the extracted OCaml driver and by the
    in-Coq vm_compute evaluation. *)
-From Lungo.Model Require Import Compare RunAccess ApiOps RunOplog RunSpec RunSort File RunMatch Fs FsRun Stream Gridfs Project.
+From Lungo.Model Require Import Compare RunAccess ApiOps RunOplog RunSpec RunSort File RunMatch Fs FsRun Stream Gridfs Project Arith RunApply.
 From Lungo.Spec Require Import RunRef.
 Open Scope string_scope.
 
@@ -40,6 +40,8 @@ Definition runners : list (sexp -> option string) :=
   ; run_sched
   ; run_gridfs
   ; run_project
+  ; run_num
+  ; run_apply
   ].
 
 Fixpoint first_some (rs : list (sexp -> option string)) (x : sexp) : string :=
